@@ -51,7 +51,7 @@ fi
 # by the main check
 SUMMARY=""
 case "$PROP" in
-C09|C10|C14|C16)
+C09|C10|C14|C16|C20)
   case " $* " in *" -replay "*) ;; *)
   if [ -z "$OVERLAY" ] || ! go build -modfile="$MODFILE" -tags "verif sched" -overlay "$OVERLAY" -o "$BIN.sched" ./cmd/schedcheck > "$OV/build.log" 2>&1; then
     cat "$OV/gen.log" "$OV/build.log" 2>/dev/null
